@@ -1,8 +1,106 @@
-(* C11 — Big-integer arithmetic is exact: the property theorems (proofs in AV.BigInt.Facts). *)
+(* C11 - Big-integer arithmetic is exact: the property theorems; proofs in AV.BigInt.Facts and the FactsXxx files. *)
 Require Import ZArith List Bool.
-Require Import AV.BigInt.Model AV.BigInt.Facts.
+Require Import AV.BigInt.Model AV.BigInt.Facts AV.BigInt.FactsCmp AV.BigInt.FactsAdd AV.BigInt.FactsMul
+               AV.BigInt.FactsBits AV.BigInt.FactsDivS AV.BigInt.FactsStr AV.BigInt.FactsScan
+               AV.BigInt.FactsShift AV.BigInt.FactsPow AV.BigInt.FactsConv AV.BigInt.FactsDiv5.
 Local Open Scope Z_scope.
 
+Theorem plus_exact : forall a b, norm a -> norm b ->
+  val (bintPlus a b) = val a + val b /\ norm (bintPlus a b).
+Proof. exact FactsAdd.plus_exact. Qed.
+Print Assumptions plus_exact.
+
+Theorem minus_exact : forall a b, norm a -> norm b ->
+  val (bintMinus a b) = val a - val b /\ norm (bintMinus a b).
+Proof. exact FactsAdd.minus_exact. Qed.
+Print Assumptions minus_exact.
+
+Theorem times_exact : forall a b, norm a -> norm b ->
+  val (bintTimes a b) = val a * val b /\ norm (bintTimes a b).
+Proof. exact FactsMul.times_exact. Qed.
+Print Assumptions times_exact.
+
 Theorem negate_exact : forall a, norm a -> val (bintNegate a) = - val a /\ norm (bintNegate a).
-Proof. exact Facts.negate_exact. Qed.
+Proof. exact FactsCmp.negate_exact. Qed.
 Print Assumptions negate_exact.
+
+Theorem abs_exact : forall a, norm a -> val (bintAbs a) = Z.abs (val a) /\ norm (bintAbs a).
+Proof. exact FactsCmp.abs_exact. Qed.
+Print Assumptions abs_exact.
+
+Theorem eq_exact : forall a b, norm a -> norm b -> bintEQ a b = (val a =? val b).
+Proof. exact FactsCmp.eq_exact. Qed.
+Print Assumptions eq_exact.
+
+Theorem lt_exact : forall a b, norm a -> norm b -> bintLT a b = (val a <? val b).
+Proof. exact FactsCmp.lt_exact. Qed.
+Print Assumptions lt_exact.
+
+Theorem gt_exact : forall a b, norm a -> norm b -> bintGT a b = (val b <? val a).
+Proof. exact FactsCmp.gt_exact. Qed.
+Print Assumptions gt_exact.
+
+Theorem sign_tests_exact : forall a, norm a ->
+  bintIsNeg a = (val a <? 0) /\ bintIsZero a = (val a =? 0) /\ bintIsPos a = (0 <? val a).
+Proof. exact FactsCmp.sign_tests_exact. Qed.
+Print Assumptions sign_tests_exact.
+
+Theorem length_exact : forall a, norm a -> bintLength a = bitlen (Z.abs (val a)).
+Proof. exact FactsBits.length_exact. Qed.
+Print Assumptions length_exact.
+
+Theorem bit_exact : forall a ix, norm a -> 0 <= ix -> bintBit a ix = Z.testbit (Z.abs (val a)) ix.
+Proof. exact FactsBits.bit_exact. Qed.
+Print Assumptions bit_exact.
+
+(* shift_val v n = sgn v * (|v| * 2^n) for n >= 0, sgn v * (|v| / 2^(-n)) for n < 0 (the code shifts the magnitude) *)
+Theorem shift_exact : forall b n, norm b ->
+  val (bintShift b n) = shift_val (val b) n /\ norm (bintShift b n).
+Proof. exact FactsShift.shift_exact. Qed.
+Print Assumptions shift_exact.
+
+(* dec_repr s v: s is the shortest decimal text of v ('-' only for negative v, no leading zeros);
+   parse_dec is the usual reader (optional '-', Horner over the digits) *)
+Theorem to_string_exact : forall a, norm a ->
+  exists s, bintToString a = Some s /\ dec_repr s (val a) /\ parse_dec s = val a.
+Proof. exact FactsStr.to_string_exact. Qed.
+Print Assumptions to_string_exact.
+
+Theorem fr_string_exact : forall (neg : bool) (ds rest : list Z),
+  alldig ds -> ds <> nil -> notdig_head rest ->
+  let r := bintScanFrString ((if neg then 45 :: nil else nil) ++ ds ++ rest) in
+  val (fst r) = (if neg then - dval ds else dval ds) /\ norm (fst r) /\ snd r = rest.
+Proof. exact FactsScan.fr_string_exact. Qed.
+Print Assumptions fr_string_exact.
+
+Theorem power_si_exact : forall a b, norm a -> 0 <= b < H63 ->
+  exists r, fiBIntSIPower a b = Some r /\ val r = val a ^ b /\ norm r.
+Proof. exact FactsPow.power_si_exact. Qed.
+Print Assumptions power_si_exact.
+
+Theorem power_bi_exact : forall a b, norm a -> norm b -> 0 <= val b ->
+  exists r, fiBIntBIPower a b = Some r /\ val r = val a ^ val b /\ norm r.
+Proof. exact FactsPow.power_bi_exact. Qed.
+Print Assumptions power_bi_exact.
+
+Theorem of_long_exact : forall n, - H63 <= n < H63 -> val (fiBIntFrInt n) = n /\ norm (fiBIntFrInt n).
+Proof. exact FactsConv.of_long_exact. Qed.
+Print Assumptions of_long_exact.
+
+Theorem to_long_exact : forall a, norm a -> Z.abs (val a) < H63 -> fiBIntToSInt a = val a.
+Proof. exact FactsConv.to_long_exact. Qed.
+Print Assumptions to_long_exact.
+
+Theorem is_single_exact : forall a, norm a -> fiBIntIsSingle a = (Z.abs (val a) <? H63).
+Proof. exact FactsConv.is_single_exact. Qed.
+Print Assumptions is_single_exact.
+
+(* Knuth's Algorithm D as coded (normalisation, qhat estimate and its two-step correction, multiply-subtract,
+   add-back, unnormalisation), for all operands: truncated quotient, remainder with the dividend's sign *)
+Theorem divide_exact : forall a b, norm a -> norm b -> val b <> 0 ->
+  let q := fst (bintDivide a b) in let r := snd (bintDivide a b) in
+  val a = val q * val b + val r /\ Z.abs (val r) < Z.abs (val b) /\
+  (val r = 0 \/ Z.sgn (val r) = Z.sgn (val a)) /\
+  val q = Z.quot (val a) (val b) /\ val r = Z.rem (val a) (val b) /\ norm q /\ norm r.
+Proof. exact FactsDiv5.divide_exact. Qed.
+Print Assumptions divide_exact.
